@@ -166,7 +166,8 @@ class Gen:
                         L.append(("R bi %d" % t) if k < 0.5 else ("R bli %d" % t) if k < 0.9 else "R bcondi %d %d" % (r.randrange(14), (base + r.randrange(-1 << 18, 1 << 18) * 4) & M64))
             elif c < 0.45:
                 small = base < (1 << 31) - (1 << 20)
-                L.append("EL %d %d" % (r.randrange(nlab), r.choice(([4, 8, 8, 0] if small else [8, 8, 8, 8, 0, 0, 0, 4]) if arch != "x86" else [4] * 6 + [0, 0, 2])))
+                # narrow slots (1/2/4 bytes) also at bases above 4 GiB: the address does not fit and relocation must refuse
+                L.append("EL %d %d" % (r.randrange(nlab), r.choice(([4, 8, 8, 0, 2] if small else [8, 8, 8, 8, 0, 0, 0, 4, 2, 1]) if arch != "x86" else [4] * 6 + [0, 0, 2])))
             elif c < 0.55 and arch == "x86":
                 disp = r.choice([0, 4, 100, 1 << 20, 8, 16, -4])
                 L.append(r.choice(["R movload %d %%d %d" % (r.randrange(8), disp), "R lea %d %%d %d" % (r.randrange(8), disp),
@@ -354,7 +355,7 @@ def track(prog, hout):
                 info["sites"].append(s)
             elif arch == "x86" and ins in ("movload", "lea", "movmi", "addmi8"):
                 imm = c03.mem_imm_size(t)
-                s = Site(); s.kind = "abs"; s.sec = cur; s.off = before + n - 4 - imm; s.size = 4; s.label = int(t[c03.X86_LABEL_ARG[ins]])
+                s = Site(); s.kind = "abs"; s.sec = cur; s.off = before + n - 4 - imm; s.size = 4; s.label = int(t[c03.X86_LABEL_ARG[ins]]); s.length = before
                 s.disp = int(t[c03.X86_LABEL_ARG[ins] + 1]); s.line = inp
                 info["sites"].append(s)
         elif tag == "R" and err != "ok":
@@ -530,6 +531,8 @@ def evaluate(info, image, base, stats):
         return image[pos:pos + n] if 0 <= pos and pos + n <= len(image) else None
 
     designated = info.setdefault("designated", {})
+    mean = info.setdefault("mean_q", [])     # (query for C01's proven decoder via the model driver, expected address, description)
+    mode = "32" if arch == "x86" else "64"
     for idx, s in enumerate(info["sites"]):
         pos = offs[s.sec] + s.off
         stats["sites"] += 1
@@ -542,6 +545,10 @@ def evaluate(info, image, base, stats):
                               % (s.line, s.sec, s.off, None if raw is None else raw.hex())))
                 continue
             got = designated_address(dec, arch, base + pos + s.length)
+            if dec["form"] == "moffs":
+                mean.append(("MEAN %s moffs 0 %d %d %s" % (mode, dec["vsize"], base + pos, raw.hex()), got, s.line))
+            else:
+                mean.append(("MEAN %s mem 1 %d %d %s" % (mode, s.length - dec["hole"] - 4, base + pos, raw.hex()), got, s.line))
             mask = 0xFFFFFFFF if (arch == "x86" or (dec["opcode"] == 0x8D and not dec["rexw"] and dec["form"] != "rip")) else M64
             stats["mem:" + dec["form"]] = stats.get("mem:" + dec["form"], 0) + 1
             designated[idx] = got & mask
@@ -555,6 +562,12 @@ def evaluate(info, image, base, stats):
             lab = labels[s.label]
             if lab is None:
                 continue
+            if arch == "x86" and s.line.startswith("R "):
+                # [label + disp] operand: find the instruction start (recorded by track) and let the proven decoder read the operand
+                ins_raw = rd(offs[s.sec] + s.length, s.off + 4 + c03.mem_imm_size(s.line.split()) - s.length)
+                if ins_raw:
+                    mean.append(("MEAN 32 mem 1 %d %d %s" % (c03.mem_imm_size(s.line.split()), base + offs[s.sec] + s.length, ins_raw.hex()),
+                                 (base + offs[lab[0]] + lab[1] + s.disp) & 0xFFFFFFFF, s.line))
             raw = rd(pos, s.size)
             want = base + offs[lab[0]] + lab[1] + s.disp
             got = int.from_bytes(raw, "little") if raw is not None else None
@@ -585,17 +598,21 @@ def evaluate(info, image, base, stats):
             ok = False
             if len(body) == 2 and ((s.kind == "jmpi" and body[0] == 0xEB) or (s.kind == "jcci" and (body[0] & 0xF0) == 0x70)):
                 ok = ((end + sext(body[1], 8)) & amask) == (s.target & amask)      # short form (base known when assembling)
+                mean.append(("MEAN %s branch8 0 1 %d %s" % (mode, base + pos, raw.hex()), (end + sext(body[1], 8)) & amask, s.line))
             elif s.kind == "jcci":
                 if len(body) == 6 and body[0] == 0x0F and (body[1] & 0xF0) == 0x80:
                     ok = ((end + sext(int.from_bytes(body[2:6], "little"), 32)) & amask) == (s.target & amask)
+                    mean.append(("MEAN %s branch 0 4 %d %s" % (mode, base + pos, raw.hex()), (end + sext(int.from_bytes(body[2:6], "little"), 32)) & amask, s.line))
             else:
                 direct = 0xE8 if s.kind == "calli" else 0xE9
                 modrm = 0x15 if s.kind == "calli" else 0x25
                 if len(body) == 5 and body[0] == direct:
                     ok = ((end + sext(int.from_bytes(body[1:5], "little"), 32)) & amask) == (s.target & amask)
                     stats["direct"] += 1
+                    mean.append(("MEAN %s branch 0 4 %d %s" % (mode, base + pos, raw.hex()), (end + sext(int.from_bytes(body[1:5], "little"), 32)) & amask, s.line))
                 elif arch == "x64" and len(raw) == 6 and raw[0] == 0xFF and raw[1] == modrm:
                     slot = end + sext(int.from_bytes(raw[2:6], "little"), 32) - base
+                    mean.append(("MEAN 64 mem 1 0 %d %s" % (base + pos, raw.hex()), (base + slot) & M64, s.line))
                     cell = rd(slot, 8)
                     stats["via_table"] += 1
                     ok = cell is not None and int.from_bytes(cell, "little") == s.target and at_in_table(d, offs, slot)
@@ -798,6 +815,16 @@ def check_programs(ck, impl, model, programs):
             if not want_err:
                 res["problems"].append(("C04/spurious-relocation-error", "relocate_to_base(%#x) returned %s although every absolute reference is representable"
                                         % (base, rerr)))
+    # run-time meaning through C01's proven decoder: every x86 site the evaluator decoded must get the same address from the model's site_target
+    qblocks = [[q[0] for q in (r["info"] or {}).get("mean_q", [])] if r.get("info") else [] for r in results]
+    qouts = c03.run_sharded(model, [b or ["RELOC 0 8 0 0 0"] for b in qblocks])
+    for r, blk, outs in zip(results, qblocks, qouts):
+        if not blk:
+            continue
+        for (q, want, what), got in zip(r["info"]["mean_q"], outs or []):
+            stats["decoded_by_c01"] = stats.get("decoded_by_c01", 0) + 1
+            if got != str(want):
+                r["diffs"].append("%s: C01's proven decoder reads the site as designating %s, the evaluator's decoder %#x (%s)" % (what, got, want, q[:120]))
     return results, stats
 
 
